@@ -133,12 +133,39 @@ def _rand(rng, steps, nkeys, walks=True):
     return seg
 
 
+def _rmloops(rng, nseg):
+    """The documented removal in an iteration loop (getnext; removeobj + find_nearest "rewind" for some of the returned keys; until
+    getnext reports the end), on trees of various sizes and after various histories; a complete walk and lookups follow."""
+    segs = []
+    for _ in range(nseg):
+        seg = []
+        nk = rng.choice([1, 2, 3, 5, 8, 13, 30, 60])
+        keys = rng.sample(range(1, 4 * nk + 1), nk)
+        for k in keys: seg.append(dict(op="put", a=k, b=rng.choice([1, 2, 5, 7])))
+        for _ in range(rng.randint(0, 3)):
+            seg.append(dict(op=rng.choice(["walk", "min", "max"]), a=0, b=0))
+        for rnd in range(rng.randint(1, 3)):
+            p = rng.choice([0.1, 0.35, 0.7, 1.0])
+            for _ in range(nk + 1):
+                seg.append(dict(op="next", a=0, b=0))
+                if rng.random() < p: seg.append(dict(op="rmnext", a=0, b=0))
+            seg.extend([dict(op="next", a=0, b=0)] * 2)      # whatever is left of the sweep, then the end report
+            seg.append(dict(op="abandon", a=0, b=0))
+            seg.append(dict(op="walk", a=0, b=0))
+            for k in rng.sample(keys, min(3, len(keys))): seg.append(dict(op="get", a=k, b=0))
+            for k in rng.sample(range(1, 4 * nk + 1), min(4, nk)): seg.append(dict(op="put", a=k, b=1))
+        segs.append(seg)
+    return segs
+
+
 def randoms(tier, rng):
     out = []
     plan = [(2, 6000, 40), (1, 8000, 2000)] if tier == "quick" else [(1, 1500, 30), (1, 2000, 120)] if tier == "cross" else [(6, 8000, 40), (3, 20000, 2000), (2, 30000, 10000)]
     for n, (nseg, steps, nkeys) in enumerate(plan):
         out.append(dict(tag="k%d" % nkeys, segs=[_rand(rng, steps, nkeys) for _ in range(nseg)], trace_consts=TRACE_CONSTS,
                         replays=_replays([rng.randint(0, 4), (n + 1) % 5] if tier == "thorough" else [(n * 2 + rng.randint(0, 1)) % 5])))
+    out.append(dict(tag="rmloop", segs=_rmloops(rng, 30 if tier == "quick" else 8 if tier == "cross" else 200), trace_consts=TRACE_CONSTS,
+                    replays=_replays([rng.randint(0, 4), rng.randint(0, 4)] if tier != "cross" else [rng.randint(0, 4)])))
     # walk bursts: hundreds of traversal starts on small trees (epoch wrap-around, C03)
     burst = []
     for _ in range(2 if tier == "quick" else 1 if tier == "cross" else 6):
